@@ -37,4 +37,8 @@ def run(rep, fb, tier):
     from ..rules import pyrules as _pr7
     _pr7.rule_py_array_outermost(rep)
     _bd.rule_def_arg_order(rep, fb)
+    from ..rules import jsonrules as _jr, lints3 as _l3
+    _jr.rule_json_int_width(rep, fb)
+    _l3.rule_child_accessor_bounds(rep, fb)
+    _l3.rule_option_shortcut(rep, fb)
     rep.units = fb.units
